@@ -544,7 +544,7 @@ func (t *translator) checkLoop() {
 	var whyLoop, whySel, whyTimer, whyTime []string
 	fd := t.funcs[schedRecv+"."+loopFn]
 	done := func() {
-		t.report("loop", len(whyLoop) == 0, whyLoop, "`"+loopFn+"` ends with `for { … }` (no condition); the loop body is `queueSize, err := sched.queue.Size()`, a tagless switch, a select; no break/continue/goto/label/nested loop/defer; its only `return` is the last statement of the `<-ctx.Done()` case")
+		t.report("loop", len(whyLoop) == 0, whyLoop, "`"+loopFn+"` ends with `for { … }` (no condition); the loop body is zero-valued `var` declarations, `backingOff := <pure expression>`, `if !backingOff { queueSize, err = sched.queue.Size() }` (the only Size() call of the function), a tagless switch, a select; no break/continue/goto/label/nested loop/defer; its only `return` is the last statement of the `<-ctx.Done()` case")
 		t.report("select", len(whySel) == 0, whySel, "the loop waits in `select { case <-timer.C: case <-sched.interrupt: case <-ctx.Done(): }` (no default), `ctx` being the context parameter")
 		t.report("timer", len(whyTimer) == 0, whyTimer, "one `timer := time.NewTimer(…)` before the loop, used only as `timer.Reset(d)` (statement; exactly one, last, in every case of the switch), `timer.Stop()` and `<-timer.C`; the interrupt case is `if !timer.Stop() { select { case <-timer.C: default: } }`; the exit case is `timer.Stop(); sched.Reset(); return`")
 		t.report("time", len(whyTime) == 0, whyTime, "values of type time.Time are `time.Now()`, a variable declared `var x time.Time` (zero) or `time.Now().Add(d)`; they are used by `Before`/`After`/`Sub`/`time.Until` only")
@@ -622,20 +622,65 @@ func (t *translator) checkLoop() {
 	})
 	var sw *ast.SwitchStmt
 	var sel *ast.SelectStmt
-	if len(body) != 3 {
-		whyLoop = append(whyLoop, fmt.Sprintf("the loop body has %d statements (expected: Size(), switch, select)", len(body)))
+	if len(body) < 4 {
+		whyLoop = append(whyLoop, fmt.Sprintf("the loop body has %d statements (expected: var declarations, the back-off test, the guarded Size(), switch, select)", len(body)))
 	} else {
-		if as, ok := body[0].(*ast.AssignStmt); !ok || len(as.Rhs) != 1 || callPath(as.Rhs[0]) != r+".queue.Size" {
-			whyLoop = append(whyLoop, "the loop does not start with `… := "+r+".queue.Size()`")
+		nb := len(body)
+		// … var declarations without values, then `backingOff := <pure>`, then `if !backingOff { …, … = sched.queue.Size() }`
+		guardName := ""
+		for _, st := range body[:nb-4] {
+			ds, ok := st.(*ast.DeclStmt)
+			plain := ok
+			if ok {
+				gd, isGen := ds.Decl.(*ast.GenDecl)
+				plain = isGen && gd.Tok == token.VAR
+				if plain {
+					for _, sp := range gd.Specs {
+						if vs, ok := sp.(*ast.ValueSpec); !ok || len(vs.Values) != 0 {
+							plain = false
+						}
+					}
+				}
+			}
+			if !plain {
+				whyLoop = append(whyLoop, "a statement before the back-off test that is not a `var` declaration without a value at "+t.posOf(st))
+			}
 		}
-		sw, _ = body[1].(*ast.SwitchStmt)
-		sel, _ = body[2].(*ast.SelectStmt)
+		if as, ok := body[nb-4].(*ast.AssignStmt); ok && as.Tok == token.DEFINE && len(as.Lhs) == 1 && len(as.Rhs) == 1 {
+			if id, ok := unparen(as.Lhs[0]).(*ast.Ident); ok {
+				guardName = id.Name
+			}
+		}
+		if guardName == "" {
+			whyLoop = append(whyLoop, "the statement before the guarded Size() is not `<flag> := <expression>`")
+		}
+		okGuard := false
+		if is, ok := body[nb-3].(*ast.IfStmt); ok && is.Init == nil && is.Else == nil && guardName != "" && exprTextNot(is.Cond) == guardName && len(is.Body.List) == 1 {
+			if as, ok := is.Body.List[0].(*ast.AssignStmt); ok && as.Tok == token.ASSIGN && len(as.Rhs) == 1 && callPath(as.Rhs[0]) == r+".queue.Size" {
+				okGuard = true
+			}
+		}
+		if !okGuard {
+			whyLoop = append(whyLoop, "the loop does not ask the queue by `if !"+guardName+" { … = "+r+".queue.Size() }`")
+		}
+		nSize := 0
+		ast.Inspect(fd, func(m ast.Node) bool {
+			if c, ok := m.(*ast.CallExpr); ok && selPath(c.Fun) == r+".queue.Size" {
+				nSize++
+			}
+			return true
+		})
+		if nSize != 1 {
+			whyLoop = append(whyLoop, fmt.Sprintf("%d calls of %s.queue.Size in %s (expected 1)", nSize, r, loopFn))
+		}
+		sw, _ = body[nb-2].(*ast.SwitchStmt)
+		sel, _ = body[nb-1].(*ast.SelectStmt)
 		if sw == nil || sw.Tag != nil || sw.Init != nil {
-			whyLoop = append(whyLoop, "the second statement of the loop is not a tagless switch")
+			whyLoop = append(whyLoop, "the last but one statement of the loop is not a tagless switch")
 			sw = nil
 		}
 		if sel == nil {
-			whyLoop = append(whyLoop, "the third statement of the loop is not a select")
+			whyLoop = append(whyLoop, "the last statement of the loop is not a select")
 		}
 	}
 	// select shape
